@@ -247,4 +247,71 @@ theorem gd_intt_eq (hw : t.WF) (a : List Nat) (hs : a.length = 2^t.k) (ha : ∀ 
       (inttLazy t a.toArray).toList = _
   rw [hl, e2, e3]
 
+/-! ### composition with the C09 theorems: from the Rust source to the evaluation map -/
+
+theorem gd_getD_of_mem (l : List Nat) (B : Nat) (h : ∀ x ∈ l, x < B) (j : Nat) (hj : j < l.length) : l.toArray.getD j 0 < B :=
+  h _ (gd_arrFn_mem l j hj)
+
+theorem gd_mem_of_getD (arr : Array Nat) (B : Nat) (h : ∀ i, i < arr.size → arr.getD i 0 < B) : ∀ x ∈ arr.toList, x < B := by
+  intro x hx
+  obtain ⟨i, hi, rfl⟩ := List.mem_iff_getElem.mp hx
+  have hi' : i < arr.size := by simpa using hi
+  have := h i hi'
+  simpa [Array.getD, hi'] using this
+
+theorem gd_toList_get (arr : Array Nat) (i : Nat) (hi : i < arr.size) : arr.toList[i]? = some (arr.getD i 0) :=
+  gd_arrFn_get arr i hi
+
+/-- FORWARD, from source to mathematics: the function generated from `NTTTables::ntt_negacyclic_harvey` (handler call + correction loop,
+    run on the fields of a well-formed table) maps the coefficient vector `a` (words `< 4q`) to the canonical residues of the
+    evaluations of `Σ a_j X^j` at `ψ^(2·brev(i)+1)` -/
+theorem gd_ntt_source_eval (hw : t.WF) (a : List Nat) (hs : a.length = 2^t.k) (ha : ∀ x ∈ a, x < 4 * t.modulus.value) :
+    ∃ out, ntt_negacyclic_harvey (gd_view t) a = .ok out ∧ out.length = 2^t.k ∧
+      ∀ i, i < 2^t.k → out[i]? = some (evalSpec t a.toArray i) := by
+  have hsz : a.toArray.size = 2^t.k := by simpa using hs
+  obtain ⟨e1, e2⟩ := ntt_eval hw a.toArray hsz (fun j hj => gd_getD_of_mem a _ ha j (by omega))
+  refine ⟨_, gd_ntt_eq hw a hs ha, by simpa using e1, fun i hi => ?_⟩
+  rw [gd_toList_get _ i (by omega), e2 i hi]
+
+/-- INVERSE ∘ FORWARD on the generated functions: on a canonical vector the generated inverse transform undoes the generated forward one -/
+theorem gd_source_roundtrip (hw : t.WF) (a : List Nat) (hs : a.length = 2^t.k) (ha : ∀ x ∈ a, x < t.modulus.value) :
+    ∃ out, ntt_negacyclic_harvey (gd_view t) a = .ok out ∧ out.length = 2^t.k ∧
+      (∀ i, i < 2^t.k → out[i]? = some (evalSpec t a.toArray i)) ∧
+      inverse_ntt_negacyclic_harvey (gd_view t) out = .ok a := by
+  have hq := hw.mwf.two_le
+  have ha4 : ∀ x ∈ a, x < 4 * t.modulus.value := fun x hx => by have := ha x hx; omega
+  have hsz : a.toArray.size = 2^t.k := by simpa using hs
+  obtain ⟨out, e1, e2, e3⟩ := gd_ntt_source_eval hw a hs ha4
+  have eo : out = (ntt t a.toArray).toList := by
+    have := gd_ntt_eq hw a hs ha4
+    rw [e1] at this; injection this
+  obtain ⟨s1, s2⟩ := ntt_sim hw a.toArray hsz (fun j hj => gd_getD_of_mem a _ ha4 j (by omega))
+  refine ⟨out, e1, e2, e3, ?_⟩
+  rw [eo, gd_intt_eq hw _ (by simpa using s1) (gd_mem_of_getD _ _ (fun i hi => by have := (s2 i (by omega)).2.1; omega))]
+  congr 1
+  have := intt_ntt hw a.toArray hsz (fun j hj => gd_getD_of_mem a _ ha j (by omega))
+  simp only [Array.toArray_toList] at *
+  rw [this]
+
+/-- FORWARD ∘ INVERSE on the generated functions: on canonical evaluations `b` the generated inverse transform returns a canonical
+    coefficient vector whose generated forward transform is `b` (so its evaluations at `ψ^(2·brev(i)+1)` are the `b_i`) -/
+theorem gd_source_inverse (hw : t.WF) (b : List Nat) (hs : b.length = 2^t.k) (hb : ∀ x ∈ b, x < t.modulus.value) :
+    ∃ a, inverse_ntt_negacyclic_harvey (gd_view t) b = .ok a ∧ a.length = 2^t.k ∧ (∀ x ∈ a, x < t.modulus.value) ∧
+      ntt_negacyclic_harvey (gd_view t) a = .ok b ∧ ∀ i, i < 2^t.k → b[i]? = some (evalSpec t a.toArray i) := by
+  have hq := hw.mwf.two_le
+  have hb2 : ∀ x ∈ b, x < 2 * t.modulus.value := fun x hx => by have := hb x hx; omega
+  have hsz : b.toArray.size = 2^t.k := by simpa using hs
+  obtain ⟨s1, s2⟩ := intt_sim hw b.toArray hsz (fun j hj => gd_getD_of_mem b _ hb2 j (by omega))
+  have hac : ∀ x ∈ (intt t b.toArray).toList, x < t.modulus.value := gd_mem_of_getD _ _ (fun i hi => (s2 i (by omega)).1)
+  have hlen : (intt t b.toArray).toList.length = 2^t.k := by simpa using s1
+  obtain ⟨out, e1, e2, e3⟩ := gd_ntt_source_eval hw _ hlen (fun x hx => by have := hac x hx; omega)
+  have eo : out = b := by
+    have h1 := gd_ntt_eq hw _ hlen (fun x hx => by have := hac x hx; omega)
+    rw [e1] at h1; injection h1 with h1
+    have h2 := ntt_intt hw b.toArray hsz (fun j hj => gd_getD_of_mem b _ hb j (by omega))
+    simp only [Array.toArray_toList] at h1
+    rw [h1, h2]
+  rw [eo] at e1 e3
+  exact ⟨_, gd_intt_eq hw b hs hb2, hlen, hac, e1, e3⟩
+
 end HC
